@@ -2,6 +2,9 @@
   Core/Dataflow -- a DAG of pure tasks; any schedule (any order, any number of workers started in
   the same tick) produces the same store.  DESIGN.md Appendix A.6, kept verbatim (definitions and
   theorem names); shared by C01 / C03 / C07 / C11.  Core Lean only (no Mathlib).
+  NB `Graph` is indexed by task number: *different tasks have different keys* by construction.  dask identifies tasks
+  by key and merges the dictionaries of results evaluated together; that premise is modelled and discharged separately
+  (Proofs/GraphKeys.lean `joint_eval_eq_alone`; Props/C01 `no_call_site_names_its_graph_key`, from generated facts).
 -/
 namespace XrsVerif.DF
 /-- a pure task graph, topologically numbered -/
